@@ -53,6 +53,9 @@ func genLattice(idx int, rng *rand.Rand) latticeCfg {
 	l.TLS = idx%2 == 0
 	l.Protocol = []string{"tcp", "websocket", "tcp", "kcp", "tcp", "quic", "websocket", "tcp"}[(idx/2)%8]
 	l.Mux = (idx/16)%2 == 0
+	if p := os.Getenv("C05_PROTO"); p != "" {
+		l.Protocol = p
+	}
 	if rng.Intn(4) == 0 {
 		l.Mux = !l.Mux
 	}
@@ -425,6 +428,11 @@ func latticeCase(c *h.Case) {
 	runIDs, _ := ps.sessionsOfUser(userP)
 	rv, _ := ps.sessionsOfUser(userV)
 	runIDs = append(runIDs, rv...)
+	if os.Getenv("C05_DIAG") != "" {
+		for _, id := range runIDs {
+			diagRunIDs.Store(id, fmt.Sprintf("case %d relays %d,%d cfg %s", c.Idx, pRelayP, pRelayV, l.sig()))
+		}
+	}
 
 	// ---- traffic
 	const tmo = 30 * time.Second
@@ -568,6 +576,25 @@ func latticeCase(c *h.Case) {
 			for _, p := range []string{"P", "V"} {
 				run.Count("absence_checks", 1)
 				if at := bytes.Index(caps[p], []byte(lit)); at >= 0 {
+					if os.Getenv("C05_DIAG") != "" {
+						lo, hi := at-100, at+200
+						if lo < 0 {
+							lo = 0
+						}
+						if hi > len(caps[p]) {
+							hi = len(caps[p])
+						}
+						region := string(caps[p][lo:hi])
+						owner := "unknown"
+						diagRunIDs.Range(func(k, v any) bool {
+							if strings.Contains(region, k.(string)) {
+								owner = fmt.Sprint(v)
+								return false
+							}
+							return true
+						})
+						fmt.Fprintf(os.Stderr, "DIAG case %d (relays %d,%d users %s %s) literal %s on %s: owner of run id in region = %s own=%v region=%q\n", c.Idx, pRelayP, pRelayV, userP, userV, lit, p, owner, runIDs, region)
+					}
 					c.Violation("tls-protocol-json-in-clear", "protocol message field %s is readable on the path %s at offset %d: …%s… [%s]", lit, pathName[p], at, excerpt(caps[p], at, 60), l.sig())
 				}
 			}
@@ -616,6 +643,8 @@ func latticeCase(c *h.Case) {
 		run.Sample(map[string]any{"kind": "lattice", "cfg": l, "legs_flowed": nflow, "capture_bytes": len(capP) + len(capV)})
 	}
 }
+
+var diagRunIDs sync.Map
 
 // rng2 derives an independent PRNG for a goroutine of the case (the case PRNG is not thread-safe).
 func rng2(c *h.Case, k int) *rand.Rand { return c.R.RandFor(fmt.Sprintf("case%d", k), c.Idx) }
